@@ -94,7 +94,12 @@ AddSeq(e, as) == IF as = << >> THEN Ok(e)
                       IF IsOk(r) THEN AddSeq(Val(r), Tail(as)) ELSE r
 AddAssertionsA == \E dst \in Reg, src \in Full, n \in 2..3 : \E rs \in [1..n -> Full] :
                   Call("add_assertions", dst, <<src, rs>>, AddSeq(reg[src], [i \in 1..n |-> reg[rs[i]]]))
-AssertionsFam == AddAssertionsA \/ AddAssertionA \/ AddAssertionPOA \/ AddAssertionEnvA \/ RemoveAssertionA
+(* the conditional / optional entry points with nothing to add: the envelope comes back as it is *)
+NoopKinds == {"optional_none", "if_false", "empty_string", "optional_envelope_none", "envelope_if_false",
+              "salted_none", "assertions_empty", "add_assertion_envelopes_empty"}
+AddNothingA == \E dst \in Reg, src \in Full, kind \in NoopKinds :
+                  Call("add_nothing", dst, <<src, kind>>, Ok(reg[src]))
+AssertionsFam == AddNothingA \/ AddAssertionsA \/ AddAssertionA \/ AddAssertionPOA \/ AddAssertionEnvA \/ RemoveAssertionA
                  \/ ReplaceAssertionA \/ ReplaceSubjectA
 
 (* ---- navigation: parts of an envelope into a register -------------------------*)
